@@ -125,51 +125,109 @@ def formal(f) -> str:
     return f"⟨{lean_str(tc)}, {lean_bool(var)}, {lean_bool(hom)}⟩"
 
 
+def iformal(f, names) -> str:
+    tc, var, hom = f
+    return f"⟨{names.index(tc)}, {lean_bool('(' not in tc)}, {lean_bool(var)}, {lean_bool(hom)}⟩"
+
+
+def cost(shape) -> int:
+    n = len(shape[0]) + (2 if shape[0] and shape[0][-1][1] else 0)
+    return n * n * n
+
+
+def chunks_of(shapes, nchunks):
+    """Distribute shape indices over chunks, balancing the (cubic) cost of the kernel check."""
+    order = sorted(range(len(shapes)), key=lambda i: -cost(shapes[i]))
+    load = [0] * nchunks
+    out = [[] for _ in range(nchunks)]
+    for i in order:
+        k = load.index(min(load))
+        out[k].append(i)
+        load[k] += cost(shapes[i])
+    return [sorted(c) for c in out if c]
+
+
 def render(rows, shapes) -> str:
     out = [
         "import OV.Model.C12Autocast",
         "/-! GENERATED by harness/extract_schemas.py from /repo's working tree and the installed onnx schemas.",
         "    Do not edit.  `shapes`: distinct (OpSignature reading, raw OpSchema reading) pairs;",
+        "    `ishapes`: the same with type-constraint names interned (checked against `Shape.intern` by the kernel);",
         "    `rows`: (op, since_version, shape index) for every schema effective in opsets 13..23 with ≥1 input. -/",
         "namespace OV.Gen.C12",
         "open OV.Autocast",
         "",
+        "def shapes : List Shape := [",
     ]
-    nchunks = (len(shapes) + CHUNK - 1) // CHUNK
-    for c in range(nchunks):
-        part = shapes[c * CHUNK : (c + 1) * CHUNK]
-        out.append(f"def shapes{c} : List Shape := [")
-        body = []
-        for sig, raw in part:
-            body.append("  ⟨[" + ", ".join(formal(f) for f in sig) + "], [" + ", ".join(formal(f) for f in raw) + "]⟩")
-        out.append(",\n".join(body))
-        out.append("]")
-        out.append("")
-    out.append("def shapes : List Shape := " + " ++ ".join(f"shapes{c}" for c in range(nchunks)) if nchunks else "def shapes : List Shape := []")
+    body = []
+    for sig, raw in shapes:
+        body.append("  ⟨[" + ", ".join(formal(f) for f in sig) + "], [" + ", ".join(formal(f) for f in raw) + "]⟩")
+    out.append(",\n".join(body))
+    out.append("]")
+    out.append("")
+    for i, (sig, raw) in enumerate(shapes):
+        names = [f[0] for f in sig] + [f[0] for f in raw]
+        out.append(
+            f"def ishape{i} : IShape := ⟨[" + ", ".join(iformal(f, names) for f in sig) + "], ["
+            + ", ".join(iformal(f, names) for f in raw) + "]⟩"
+        )
+    out.append("")
+    out.append("def ishapes : List IShape := [" + ", ".join(f"ishape{i}" for i in range(len(shapes))) + "]")
     out.append("")
     out.append("def rows : List Row := [")
     out.append(",\n".join(f"  ⟨{lean_str(r['op'])}, {r['since']}, {r['shape']}⟩" for r in rows))
     out.append("]")
     out.append("")
-    out.append(f"def nChunks : Nat := {nchunks}")
+    out.append("/-- The interned table is the kernel-computed interning of the string table. -/")
+    out.append("theorem intern_ok : shapes.map Shape.intern = ishapes := by decide +kernel")
+    out.append("")
+    out.append("theorem rows_indexed : ∀ r ∈ rows, r.shape < ishapes.length := by decide +kernel")
     out.append("end OV.Gen.C12")
     return "\n".join(out) + "\n"
 
 
-def render_props(nchunks: int) -> str:
-    """Per-chunk table theorems (kept in their own generated module so that chunks are checked once each)."""
+NCHUNKS = 8
+
+
+def render_chunk(c: int, idxs) -> str:
     out = [
         "import OV.Gen.C12Schemas",
-        "/-! GENERATED by harness/extract_schemas.py.  Kernel-checked table obligations, one per chunk. -/",
+        "/-! GENERATED by harness/extract_schemas.py.  Kernel-checked table obligation for one chunk of shapes. -/",
         "namespace OV.Gen.C12",
         "open OV.Autocast",
         "",
+        f"def chunk{c} : List IShape := [" + ", ".join(f"ishape{i}" for i in idxs) + "]",
+        f"def chunk{c}Idx : List Nat := [" + ", ".join(str(i) for i in idxs) + "]",
+        f"theorem chunk{c}_ok : ∀ s ∈ chunk{c}, agree3All s = true := by decide +kernel",
+        "end OV.Gen.C12",
     ]
-    for c in range(nchunks):
-        out.append(f"theorem shapes{c}_ok : ∀ s ∈ shapes{c}, agree3All s = true := by decide +kernel")
-    out.append("")
-    out.append("theorem rows_indexed : ∀ r ∈ rows, r.shape < shapes.length := by decide +kernel")
-    out.append("")
+    return "\n".join(out) + "\n"
+
+
+def render_all(nchunks_real: int, nshapes: int, chunk_lists) -> str:
+    out = ["import OV.Gen.C12Schemas"]
+    out += [f"import OV.Gen.C12Chunk{c}" for c in range(nchunks_real)]
+    out += [
+        "/-! GENERATED by harness/extract_schemas.py.  The chunks cover the whole interned table. -/",
+        "namespace OV.Gen.C12",
+        "open OV.Autocast",
+        "",
+        "def allChunks : List (List IShape) := [" + ", ".join(f"chunk{c}" for c in range(nchunks_real)) + "]",
+        "",
+        "theorem chunks_cover : ∀ s ∈ ishapes, allChunks.any (fun ch => ch.contains s) = true := by decide +kernel",
+        "",
+        "theorem ishapes_ok : ∀ s ∈ ishapes, agree3All s = true := by",
+        "  intro s hs",
+        "  have h := chunks_cover s hs",
+        "  simp only [allChunks, List.any_cons, List.any_nil, Bool.or_false, Bool.or_eq_true, List.contains_iff_mem] at h",
+    ]
+    if nchunks_real == 1:
+        out.append("  exact chunk0_ok s h")
+    else:
+        pat = " | ".join(["h"] * nchunks_real)
+        out.append(f"  rcases h with {pat}")
+        for c in range(nchunks_real):
+            out.append(f"  · exact chunk{c}_ok s h")
     out.append("end OV.Gen.C12")
     return "\n".join(out) + "\n"
 
@@ -183,12 +241,21 @@ def write_if_changed(path: Path, text: str) -> bool:
 
 
 def regenerate(opsets=OPSETS):
-    """Regenerate OV/Gen/C12Schemas.lean (+ C12SchemasOk.lean).  Returns (rows, shapes, problems, changed)."""
+    """Regenerate OV/Gen/C12Schemas.lean, C12Chunk<k>.lean, C12SchemasOk.lean.
+
+    Returns (rows, shapes, problems, changed).  Files are only rewritten when their content changes."""
     rows, problems = read_registry(opsets)
     shapes = shapes_of(rows)
-    nchunks = (len(shapes) + CHUNK - 1) // CHUNK
+    chunk_lists = chunks_of(shapes, NCHUNKS)
     changed = write_if_changed(GEN_DIR / "C12Schemas.lean", render(rows, shapes))
-    changed |= write_if_changed(GEN_DIR / "C12SchemasOk.lean", render_props(nchunks))
+    for c, idxs in enumerate(chunk_lists):
+        changed |= write_if_changed(GEN_DIR / f"C12Chunk{c}.lean", render_chunk(c, idxs))
+    for stale in GEN_DIR.glob("C12Chunk*.lean"):
+        k = int(stale.stem[len("C12Chunk"):])
+        if k >= len(chunk_lists):
+            stale.unlink()
+            changed = True
+    changed |= write_if_changed(GEN_DIR / "C12SchemasOk.lean", render_all(len(chunk_lists), len(shapes), chunk_lists))
     return rows, shapes, problems, changed
 
 
